@@ -222,6 +222,9 @@ pub struct LoopScn {
     /// context (one thread pool reused by consecutive benchmarks with
     /// different thread counts, as in a real run); 0 = none.
     pub prelude_threads: usize,
+    /// Virtual ticks the one-off measurement of benchmarking overheads takes
+    /// (first benchmark of a process); 0 = free.
+    pub overhead_measure_ticks: u64,
 }
 
 impl Default for LoopScn {
@@ -258,6 +261,7 @@ impl Default for LoopScn {
             spurious_parks: Vec::new(),
             os_timer: false,
             prelude_threads: 0,
+            overhead_measure_ticks: 0,
         }
     }
 }
@@ -386,6 +390,7 @@ impl LoopScn {
             "spurious_parks": self.spurious_parks.iter().map(|&(t, k)| json!([t, k])).collect::<Vec<_>>(),
             "prelude_threads": self.prelude_threads,
             "os_timer": self.os_timer,
+            "overhead_measure_ticks": self.overhead_measure_ticks,
         })
     }
 
@@ -462,6 +467,7 @@ impl LoopScn {
                 .collect::<Option<Vec<_>>>()?,
             prelude_threads: v["prelude_threads"].as_u64().unwrap_or(0) as usize,
             os_timer: v["os_timer"].as_bool().unwrap_or(false),
+            overhead_measure_ticks: v.get("overhead_measure_ticks").and_then(|x| x.as_u64()).unwrap_or(0),
         })
     }
 
@@ -498,7 +504,7 @@ impl LoopScn {
             }
         }
         h.u64(self.spurious_parks.len() as u64);
-        h.u64(self.prelude_threads as u64 | (self.os_timer as u64) << 8);
+        h.u64(self.prelude_threads as u64 | (self.os_timer as u64) << 8 | ((self.overhead_measure_ticks > 0) as u64) << 9);
         h.finish()
     }
 
@@ -515,6 +521,7 @@ impl LoopScn {
             },
             precision_override: self.precision_override,
             overheads: self.overheads,
+            overhead_measure_ticks: self.overhead_measure_ticks,
             name: "loop",
             user: Some(ctx),
             ..RunConfig::default()
